@@ -383,6 +383,66 @@ def ts_lit(job_index, tail, s):
     return d
 
 
+
+# ---------------------------------------------------------------- integer attributes
+INT_KINDS = {0: ('object_id_type', -(1 << 63), (1 << 63) - 1), 1: ('changeset_id_type', 0, (1 << 32) - 1), 2: ('object_version_type', 0, (1 << 32) - 1),
+             3: ('user_id_type', 0, (1 << 32) - 1), 4: ('int32_t', -(1 << 31), (1 << 31) - 1)}
+
+
+def int_string(I, neg, nd, tail):
+    bs = ([45] if neg else []) + [digit_byte(I, 'd%d' % k) for k in range(nd)] + ([tail] if tail else [])
+    buf = I.new_obj(len(bs) + 1, 'num', 'heap')
+    for k, b in enumerate(bs): I.store(buf + k, i8, b)
+    I.store(buf + len(bs), i8, 0)
+    V = z3.IntVal(0)
+    for b in bs[(1 if neg else 0):(1 if neg else 0) + nd]: V = V * 10 + dig(I, b)
+    return buf, (-V if neg else V), len(bs) - (1 if tail else 0)
+
+
+def h_opl_int(I, job):
+    kind, neg, nd, tail = job['kind'], job['neg'], job['digits'], job.get('tail', 0)
+    name, lo, hi = INT_KINDS[kind]
+    buf, V, plen = int_string(I, neg, nd, tail)
+    out = I.new_obj(8, 'out', 'heap'); cons = I.new_obj(4, 'cons', 'heap')
+    rc = I.concretize(I.call('@verif_opl_int', [kind, buf, out, cons]), 'rc'); I.observe('rc', rc)
+    inrange = z3.And(V >= lo, V <= hi)
+    if nd == 0:
+        if rc == 0: raise Finding('accepts-invalid', 'opl_parse_int accepts a string without digits')
+    elif rc == 0:
+        I.obligation(inrange, 'accepts-invalid', 'opl_parse_int<%s> accepts a value outside the range of the type' % name)
+        v = I.load(out, i64)
+        I.obligation(I.sterm(v, 64) == V if isinstance(v, Sym) else z3.IntVal(v - (1 << 64) if v >> 63 else v) == V, 'wrong-value', 'opl_parse_int<%s> returns a different value' % name)
+        I.obligation(I.icmp('eq', 32, I.load(cons, i32), plen), 'consumed', 'opl_parse_int does not stop at the end of the digits')
+        I.reach('accepted')
+    else:
+        I.obligation(z3.Not(inrange), 'rejects-valid', 'opl_parse_int<%s> rejects a value inside the range of the type' % name)
+        I.reach('rejected')
+    I.reach('end')
+
+
+def h_string_number(I, job):
+    what, neg, nd, tail = job['what'], job['neg'], job['digits'], job.get('tail', 0)
+    buf, V, plen = int_string(I, neg, nd, tail)
+    out = I.new_obj(8, 'out', 'heap')
+    rc = I.concretize(I.call('@verif_string_to_number', [what, buf, out]), 'rc'); I.observe('rc', rc)
+    if what == 0:
+        ok = z3.And(V > -(1 << 63), V < (1 << 63) - 1) if not tail and nd else z3.BoolVal(False)
+        either = z3.And(V == (1 << 63) - 1, not tail and nd > 0)          # INT64_MAX cannot be told from an overflow through strtoll
+    else:
+        minus_one = neg and nd == 1 and not tail
+        ok = z3.And(V >= 0, V <= (1 << 32) - 1, not neg and not tail and nd > 0) if not minus_one else (V == -1)
+        either = z3.BoolVal(False)
+    if rc == 0:
+        I.obligation(z3.Or(ok, either), 'accepts-invalid', 'a number outside the range of the type (or with trailing characters) is accepted')
+        v = I.load(out, i64); sv = I.sterm(v, 64) if isinstance(v, Sym) else z3.IntVal(v - (1 << 64) if v >> 63 else v)
+        I.obligation(sv == (z3.If(V == -1, 0, V) if what == 1 else V), 'wrong-value', 'the parsed value differs from the decimal value of the text')
+        I.reach('accepted')
+    else:
+        I.obligation(z3.Not(ok), 'rejects-valid', 'a value inside the range of the type is rejected')
+        I.reach('rejected')
+    I.reach('end')
+
+
 def gen_rt(rnd):
     return [{'x': rnd.getrandbits(32)} for _ in range(20)]
 
@@ -414,4 +474,12 @@ def harnesses(tier):
                 reach=('end', 'accepted', 'rejected'),
                 desc='parse_timestamp on ISO-shaped strings: all 14 digits symbolic (every field value incl. second 60, day 29..31, month 13, hour 24), fractional seconds, one arbitrary byte at a template position or after the seconds: accepted iff grammar and field ranges hold, value == exact calendar arithmetic, consumed length',
                 bounds='19-character date-time template followed by the listed tails; one fully symbolic byte per job; February 29 of a non-leap year may be accepted (normalised by timegm) or rejected'),
+        Harness('opl_parse_int', 'text', h_opl_int, mode='INT', reach=('end', 'accepted', 'rejected'),
+                jobs=[dict(kind=k, neg=n, digits=d) for k in range(5) for n in (0, 1) for d in ((1, 10, 11, 19, 20) if k == 0 else (1, 9, 10, 11))] + [dict(kind=0, neg=0, digits=0), dict(kind=1, neg=0, digits=3, tail=120), dict(kind=0, neg=1, digits=0)],
+                desc='opl_parse_int<T> for the five instantiations on [-]digits strings with symbolic digits around every type boundary: accepted iff the value fits the type, value exact, stops at the first non-digit',
+                bounds='1..20 digits (lengths around the type boundaries)', tests=[dict(_job=0, d0=53)]),
+        Harness('string_to_number', 'text', h_string_number, mode='INT', reach=('end', 'accepted', 'rejected'),
+                jobs=[dict(what=0, neg=n, digits=d) for n in (0, 1) for d in (1, 18, 19, 20)] + [dict(what=1, neg=0, digits=d) for d in (1, 9, 10, 11)] + [dict(what=1, neg=1, digits=1), dict(what=1, neg=0, digits=2, tail=32), dict(what=0, neg=0, digits=2, tail=120), dict(what=1, neg=0, digits=0)],
+                desc='string_to_object_id and string_to_ulong (version / changeset / uid attributes of XML) on [-]digits strings with symbolic digits: strict range, no trailing characters, "-1" means 0 for the unsigned attributes; libc strtoll/strtoul are C11 contract models',
+                bounds='1..20 digits', tests=[dict(_job=0, d0=55)]),
     ]
